@@ -121,6 +121,31 @@ def gen_db(rng):
     return {"k": "db", "ops": ops}
 
 
+def gen_db_install(rng):
+    """a follower that lags (it has applied only a prefix of the leader's requests) is caught up by a snapshot
+    INSTALLED INTO ITS LIVE STATE (load without restart), then serves requests itself (it became leader): what it
+    issues must continue behind everything the old leader issued"""
+    ops = []
+    log = []
+    for _ in range(rng.randrange(3, 25)):
+        k = rng.choice(KEYS[:3])
+        req = ["req", "next_id", k] if rng.random() < 0.4 else ["req", "next_range", k, rng.choice([1, 2, 100, 100, 7])]
+        ops.append(req)
+        log.append(req)
+    ops.append(["snapshot", 1])
+    ops.append(["restart"])                              # the follower's own state machine
+    for req in log[:rng.randrange(0, len(log))]:
+        ops.append(["replay"] + req[1:])
+    ops.append(["dump"])
+    ops.append(["load", 1])                              # InstallSnapshot on the running follower
+    ops.append(["dump"])
+    for _ in range(rng.randrange(2, 10)):
+        k = rng.choice(KEYS[:3])
+        ops.append(["req", "next_id", k] if rng.random() < 0.4 else ["req", "next_range", k, rng.choice([1, 100, 7])])
+    ops.append(["dump"])
+    return {"k": "db", "ops": ops}
+
+
 def gen_mgr(rng):
     n = rng.choice([1, 2, 3])
     ops = []
@@ -496,6 +521,8 @@ def run(chk, replay=None):
         seq_cases.append(gen_group(rng, False))
     for _ in range(150 if quick else 3000):
         seq_cases.append(gen_db(rng))
+    for _ in range(40 if quick else 800):
+        seq_cases.append(gen_db_install(rng))
     for _ in range(100 if quick else 2000):
         seq_cases.append(gen_mgr(rng))
     for _ in range(10 if quick else 100):
